@@ -36,6 +36,7 @@ type Clause struct {
 	Line  int
 	File  string
 	Prop  []string // restrict this clause to properties (optional "[C01 C02]" prefix)
+	Assumed bool   // "assumes": postcondition assumed at call sites, not checked against the body
 }
 
 type LoopSpec struct {
@@ -73,6 +74,9 @@ type Contract struct {
 	Dispatch []string // interface: closed list of implementing types
 	Notes    []string
 	Unroll   int
+	Witness  []*Clause // expressions (entry state) whose model values are handed to the replay scenario
+	Fresh    []string  // named results that are freshly allocated objects
+	Splits   []*Clause // case split: "split <expr>: v1, v2, ..." or "split <expr> pow2 lo hi"
 	// filled at bind time
 	ParamNames  []string
 	ResultNames []string
@@ -98,9 +102,17 @@ type GhostDecl struct {
 type Lemma struct {
 	Name    string
 	Props   []string
-	File    string // smt2 file relative to /verif/lemmas
+	File    string // smt2 file relative to /verif/lemmas (empty: inline lemma)
 	PkgPath string
 	Expect  string
+	Ensures []*Clause // inline lemma: closed boolean spec expressions
+	SrcFile string
+	Line    int
+}
+
+type Uninterp struct {
+	Decl    *ast.FuncDecl
+	PkgPath string
 }
 
 type ContractSet struct {
@@ -108,13 +120,15 @@ type ContractSet struct {
 	Pures     map[string]*PureFunc // key pkgpath + "." + name
 	Ghosts    []*GhostDecl
 	Lemmas    []*Lemma
+	Uninterp  map[string]*Uninterp // key pkgpath + "." + name
+	Exempt    []*GhostDecl         // frame-exempt struct types (TypeName, PkgPath)
 	Errors    []string
 }
 
 var clauseKeywords = map[string]bool{
 	"property": true, "requires": true, "ensures": true, "modifies": true, "loop": true,
 	"inline": true, "trusted": true, "abstract": true, "nosafety": true, "replay": true,
-	"bounded": true, "note": true, "fnparam": true, "dispatch": true, "unroll": true,
+	"bounded": true, "note": true, "fnparam": true, "dispatch": true, "unroll": true, "assumes": true, "split": true, "fresh": true, "witness": true,
 }
 
 var propPrefix = regexp.MustCompile(`^\[((?:C\d+\s*)+)\]\s*`)
@@ -154,7 +168,7 @@ func parseContractFile(path, pkgPath string, cs *ContractSet) {
 		}
 		trim := strings.TrimSpace(body)
 		isTop := strings.HasPrefix(trim, "func ") || strings.HasPrefix(trim, "pure ") || strings.HasPrefix(trim, "ghost ") ||
-			strings.HasPrefix(trim, "extern ") || strings.HasPrefix(trim, "interface ") || strings.HasPrefix(trim, "lemma ")
+			strings.HasPrefix(trim, "frame-exempt ") || strings.HasPrefix(trim, "extern ") || strings.HasPrefix(trim, "interface ") || strings.HasPrefix(trim, "lemma ") || strings.HasPrefix(trim, "uninterp ")
 		if isTop {
 			flush()
 		}
@@ -200,16 +214,55 @@ func parseContractFile(path, pkgPath string, cs *ContractSet) {
 				continue
 			}
 			cs.Ghosts = append(cs.Ghosts, &GhostDecl{TypeName: f[0], Field: f[1], TypeExpr: te, PkgPath: pkgPath})
+		case strings.HasPrefix(head.text, "frame-exempt "):
+			for _, tn := range strings.Fields(strings.TrimPrefix(head.text, "frame-exempt ")) {
+				cs.Exempt = append(cs.Exempt, &GhostDecl{TypeName: tn, PkgPath: pkgPath})
+			}
+		case strings.HasPrefix(head.text, "uninterp "):
+			fd, err := parseFuncDecl(strings.TrimPrefix(head.text, "uninterp ") + " {}")
+			if err != nil {
+				cs.Errors = append(cs.Errors, fmt.Sprintf("%s:%d: uninterp: %v", base, head.line, err))
+				continue
+			}
+			cs.Uninterp[pkgPath+"."+fd.Name.Name] = &Uninterp{Decl: fd, PkgPath: pkgPath}
 		case strings.HasPrefix(head.text, "lemma "):
 			f := strings.Fields(strings.TrimPrefix(head.text, "lemma "))
-			lm := &Lemma{PkgPath: pkgPath, Expect: "unsat"}
-			if len(f) >= 2 {
-				lm.Name, lm.File = f[0], f[1]
+			lm := &Lemma{PkgPath: pkgPath, Expect: "unsat", SrcFile: base, Line: head.line}
+			if len(f) >= 1 {
+				lm.Name = f[0]
 			}
+			if len(f) >= 2 {
+				lm.File = f[1]
+			}
+			var lines []raw
 			for _, r := range blk[1:] {
+				first := strings.Fields(r.text)[0]
+				if first == "property" || first == "ensures" || len(lines) == 0 {
+					lines = append(lines, r)
+				} else {
+					lines[len(lines)-1].text += " " + r.text
+				}
+			}
+			for _, r := range lines {
 				ff := strings.Fields(r.text)
-				if len(ff) > 0 && ff[0] == "property" {
+				switch ff[0] {
+				case "property":
 					lm.Props = append(lm.Props, ff[1:]...)
+				case "ensures":
+					txt := strings.TrimSpace(strings.TrimPrefix(r.text, "ensures"))
+					cl := &Clause{Kind: "ensures", Line: r.line, File: base}
+					if m := regexp.MustCompile(`^([A-Za-z_][A-Za-z0-9_\-]*):\s+`).FindStringSubmatch(txt); m != nil {
+						cl.Label = m[1]
+						txt = txt[len(m[0]):]
+					}
+					cl.Text = txt
+					ex, err := parser.ParseExpr(txt)
+					if err != nil {
+						cs.Errors = append(cs.Errors, fmt.Sprintf("%s:%d: lemma ensures: %v", base, r.line, err))
+						continue
+					}
+					cl.Expr = ex
+					lm.Ensures = append(lm.Ensures, cl)
 				}
 			}
 			cs.Lemmas = append(cs.Lemmas, lm)
@@ -309,6 +362,13 @@ func (c *Contract) addClause(text string, line int, file string) error {
 		if err != nil {
 			return err
 		}
+		c.Ensures = append(c.Ensures, cl)
+	case "assumes":
+		cl, err := mk("ensures", rest)
+		if err != nil {
+			return err
+		}
+		cl.Assumed = true
 		c.Ensures = append(c.Ensures, cl)
 	case "modifies":
 		if rest == "" || rest == "nothing" {
@@ -417,6 +477,27 @@ func (c *Contract) addClause(text string, line int, file string) error {
 			return err
 		}
 		c.Unroll = n
+	case "split":
+		// split <expr> pow2 <lo> <hi>
+		idx := strings.Index(rest, " pow2 ")
+		if idx < 0 {
+			return fmt.Errorf("split <expr> pow2 <lo> <hi>")
+		}
+		ex, err := parser.ParseExpr(strings.TrimSpace(rest[:idx]))
+		if err != nil {
+			return err
+		}
+		c.Splits = append(c.Splits, &Clause{Kind: "split", Text: rest, Expr: ex, Label: strings.TrimSpace(rest[idx+6:]), Line: line, File: file})
+	case "witness":
+		es, err := parseExprList(rest)
+		if err != nil {
+			return err
+		}
+		for _, ex := range es {
+			c.Witness = append(c.Witness, &Clause{Kind: "witness", Text: exprString(ex), Expr: ex, Line: line, File: file})
+		}
+	case "fresh":
+		c.Fresh = append(c.Fresh, fields[1:]...)
 	case "dispatch":
 		c.Dispatch = append(c.Dispatch, fields[1:]...)
 	case "note":
@@ -516,6 +597,20 @@ func writeExpr(sb *strings.Builder, e ast.Expr) {
 	case *ast.ArrayType:
 		sb.WriteString("[]")
 		writeExpr(sb, x.Elt)
+	case *ast.CompositeLit:
+		writeExpr(sb, x.Type)
+		sb.WriteByte('{')
+		for i, el := range x.Elts {
+			if i > 0 {
+				sb.WriteString(", ")
+			}
+			writeExpr(sb, el)
+		}
+		sb.WriteByte('}')
+	case *ast.KeyValueExpr:
+		writeExpr(sb, x.Key)
+		sb.WriteString(": ")
+		writeExpr(sb, x.Value)
 	default:
 		fmt.Fprintf(sb, "<%T>", e)
 	}
